@@ -430,8 +430,8 @@ func (r *Runner) step(i int, op Op) {
 		r.Rep.Event("restart.rm."+rmClass(op.Rm), 1)
 		r.CheckAll("after-restart")
 	case "gc":
-		info, ran, err := r.S.GC(op.Sel, op.Merge)
-		r.tracef("gc sel=%d merge=%v -> ran=%v %s err=%v", op.Sel, op.Merge, ran, info, err)
+		info, ran, err := r.S.GC(op.Sel, op.Merge, op.Pref)
+		r.tracef("gc sel=%d merge=%v pref=%q -> ran=%v %s err=%v", op.Sel, op.Merge, op.Pref, ran, info, err)
 		if err != nil {
 			r.violate("gc-error", "gc failed: %v (%s)", err, info)
 			return
